@@ -615,3 +615,32 @@ Fixpoint draw_restricted {C : Type} (eqb : C -> C -> bool) (rc excl : list C) (d
       | None => draw_restricted eqb rc excl rest
       end
   end.
+
+(* ------------------------------------------------------------------ *)
+(* snapshots of the searcher state held in memory and restored later    *)
+(*   gp_searcher_utils.encode_state / decode_state behind                *)
+(*   searcher.get_state() / clone_from_state()                           *)
+(* ------------------------------------------------------------------ *)
+Inductive sop :=
+| ORegister (t r : Z)          (* register_pending *)
+| OLabel (t r : Z) (c : Q)     (* on_trial_result(update=True): label_trial with the criterion value *)
+| ORemove (t r : Z)            (* remove_case *)
+| OFailed (t : Z)              (* evaluation_failed *)
+| OCleanup (t : Z)             (* cleanup_pending *)
+| OSnapshot                    (* get_state(): the snapshot is kept in memory *)
+| ORestore (i : nat).          (* clone_from_state(i-th held snapshot); the clone becomes the live searcher *)
+
+(* (held snapshots, live searcher state) *)
+Definition sop_step (st : list sstate * sstate) (o : sop) : res (list sstate * sstate) :=
+  let '(saved, s) := st in
+  match o with
+  | ORegister t r => bind (register_pending s t r) (fun s' => Ok (saved, s'))
+  | OLabel t r c => Ok (saved, label s t r c)
+  | ORemove t r => bind (remove_case s t r) (fun s' => Ok (saved, s'))
+  | OFailed t => Ok (saved, evaluation_failed s t)
+  | OCleanup t => Ok (saved, cleanup_pending s t)
+  | OSnapshot => Ok (saved ++ [s], s)
+  | ORestore i => Ok (saved, nth i saved s)
+  end.
+Fixpoint sop_run (st : list sstate * sstate) (ops : list sop) : res (list sstate * sstate) :=
+  match ops with [] => Ok st | o :: r => bind (sop_step st o) (fun st' => sop_run st' r) end.
